@@ -108,6 +108,8 @@ func runC11(c *Ctx) {
 				switch {
 				case r != nil && instrDominates(r.lock, cs.Instr):
 				case lockedFns[cs.Caller] == "helper":
+				case len(cs.Instr.Common().Args) > 0 && isFreshLocal(cs.Instr.Common().Args[0]):
+					// called on an object the caller has just allocated and not yet published (the constructor)
 				default:
 					ok = false
 				}
@@ -193,19 +195,57 @@ func runC11(c *Ctx) {
 			bad = "the digest is not siphash.Hash(k0, k1, buf) of the whole buffer"
 		}
 		ff := p.Facts(tas)
+		// hit/miss knowledge of a fact: e != nil / e == nil of the looked-up
+		// value, or the ok result of a comma-ok lookup
+		isHitFlag := func(v ssa.Value) bool {
+			ex, ok := unspill(v).(*ssa.Extract)
+			return ok && ex.Tuple == ssa.Value(lookup) && ex.Index == 1
+		}
+		isEntry := func(v ssa.Value) bool {
+			v = unspill(v)
+			if v == ssa.Value(lookup) {
+				return true
+			}
+			ex, ok := v.(*ssa.Extract)
+			return ok && ex.Tuple == ssa.Value(lookup) && ex.Index == 0
+		}
+		state := func(fs []Fact) int { // 1 miss, 2 hit, 0 unknown
+			for _, f := range fs {
+				if x, isNil, ok := FactNilCmp(f); ok && isEntry(x) {
+					if isNil {
+						return 1
+					}
+					return 2
+				}
+				if isHitFlag(f.Cond) {
+					if f.Pol {
+						return 2
+					}
+					return 1
+				}
+			}
+			return 0
+		}
 		// the insert happens only on a miss
-		if !hasFact(ff.NC(upd.Block()), func(f Fact) bool { x, isNil, ok := FactNilCmp(f); return ok && isNil && unspill(x) == ssa.Value(lookup) }) {
+		if state(ff.NC(upd.Block())) != 1 {
 			bad = "the insert is not restricted to the miss case"
 		}
 		for _, r := range returnsOf(tas) {
 			v := unspill(r.Results[0])
 			k, isC := v.(*ssa.Const)
 			if !isC || k.Value == nil {
-				bad = "TestAndSet does not return a constant per arm"
+				// returning the hit flag itself (after the conditional insert)
+				if isHitFlag(v) {
+					continue
+				}
+				if bo, ok := v.(*ssa.BinOp); ok && bo.Op == token.NEQ && isEntry(bo.X) && isNilConst(bo.Y) {
+					continue
+				}
+				bad = "TestAndSet returns neither a constant per arm nor the hit flag"
 				continue
 			}
-			miss := hasFact(ff.NC(r.Block()), func(f Fact) bool { x, isNil, ok := FactNilCmp(f); return ok && isNil && unspill(x) == ssa.Value(lookup) })
-			if (k.Value.String() == "true") == miss {
+			st := state(ff.NC(r.Block()))
+			if (k.Value.String() == "true") != (st == 2) || st == 0 {
 				bad = "the result polarity is inverted at " + p.InstrPos(r)
 			}
 		}
@@ -234,13 +274,27 @@ func runC11(c *Ctx) {
 			}
 		}
 	}
-	if len(ws) != 2 && bad == "" {
-		bad = fmt.Sprintf("%d writes to the key, expected 2 (two 64-bit halves)", len(ws))
+	if len(ws) < 1 && bad == "" {
+		bad = "the key is never written"
+	}
+	// the random source is 16 bytes
+	if nw := p.Func("common/replayfilter:New"); nw != nil && bad == "" {
+		ok16 := false
+		for _, call := range p.CallsIn(nw, "$M/common/csrand.Bytes") {
+			if sl, ok := unspill(call.Common().Args[0]).(*ssa.Slice); ok && sl.Low == nil && sl.High == nil {
+				if n, ok := constLen(sl.X.Type()); ok && n == 16 {
+					ok16 = true
+				}
+			}
+		}
+		if !ok16 {
+			bad = "New does not draw a 16-byte key from csrand.Bytes"
+		}
 	}
 	if bad != "" {
 		ob.Violate("%s", bad)
 	} else {
-		ob.HoldNT("2 stores in New from csrand.Bytes")
+		ob.HoldNT("%d store(s) in New from 16 bytes of csrand.Bytes", len(ws))
 	}
 
 	// ---- R5 eviction conditions
@@ -436,51 +490,85 @@ func c11Eviction(c *Ctx, p *Prog) {
 	for _, in := range cf.Blocks[0].Instrs {
 		_ = in
 	}
+	// the element under inspection is the loop-carried e: every value it takes is
+	// the list's Front() or the Next() of the element inspected before
 	fronts := p.CallsIn(cf, "(*container/list.List).Front")
-	if len(fronts) != 1 || loop[fronts[0].Block()] {
-		bad = "the walk does not start once at the front of the list"
+	okWalk := false
+	for blk := range loop {
+		for _, in := range blk.Instrs {
+			phi, ok := in.(*ssa.Phi)
+			if !ok {
+				break
+			}
+			if !isNamedType(phi.Type(), "container/list", "Element") {
+				continue
+			}
+			all, anyFront := true, false
+			for _, e := range phi.Edges {
+				ec, _ := callOf(unspill(e))
+				switch {
+				case ec != nil && p.CalleeID(ec.Common()) == "(*container/list.List).Front" && isFieldLoad(ec.Common().Args[0], tRF, "fifo"):
+					anyFront = true
+				case ec != nil && p.CalleeID(ec.Common()) == "(*container/list.Element).Next" && unspill(ec.Common().Args[0]) == ssa.Value(phi):
+				default:
+					all = false
+				}
+			}
+			if all && anyFront {
+				okWalk = true
+			}
+		}
+	}
+	if len(fronts) < 1 || !okWalk {
+		bad = "the walk does not start at the front of the list and advance element by element"
 	}
 	for _, pred := range D.Preds {
 		fs := append([]Fact{}, ff.NC(pred)...)
 		if ef, ok := edgeFact(pred, D); ok {
 			fs = append(fs, ef)
 		}
-		okEdge := false
-		for _, f := range fs {
-			b, isB := f.Cond.(*ssa.BinOp)
-			if !isB {
-				continue
-			}
-			op := b.Op
-			if !f.Pol {
-				op = negOp(op)
-			}
-			// Len() >= 102400
-			if lc, _ := callOf(unspill(b.X)); lc != nil && p.CalleeID(lc.Common()) == "(*container/list.List).Len" {
-				if k, ok := intConst(b.Y); ok && k == 102400 && op == token.GEQ {
-					if loop[lc.Block()] {
-						okEdge = true
-					} else {
-						bad = "the 'filter is full' test uses a length taken before the loop: once full, every entry is evicted"
-					}
+		okEdge := true
+		for _, alt := range ff.Alternatives(fs, 0) {
+			okAlt := false
+			for _, f := range alt {
+				b, isB := f.Cond.(*ssa.BinOp)
+				if !isB {
+					continue
 				}
-			}
-			// ttl <= 0
-			if isFieldLoad(b.X, tRF, "ttl") {
-				if k, ok := intConst(b.Y); ok && k == 0 && op == token.LEQ {
-					okEdge = true
+				op := b.Op
+				if !f.Pol {
+					op = negOp(op)
 				}
-			}
-			// deltaT >= ttl
-			if isFieldLoad(b.Y, tRF, "ttl") && op == token.GEQ {
-				if sc, _ := callOf(unspill(b.X)); sc != nil && p.CalleeID(sc.Common()) == "(time.Time).Sub" {
-					a := sc.Common().Args
-					if unspill(a[0]) == ssa.Value(cf.Params[1]) {
-						if fk, _, ok := fieldLoad(unspill(a[1])); ok && fk.Field == "firstSeen" {
-							okEdge = true
+				// Len() >= 102400
+				if lc, _ := callOf(unspill(b.X)); lc != nil && p.CalleeID(lc.Common()) == "(*container/list.List).Len" {
+					if k, ok := intConst(b.Y); ok && k == 102400 && op == token.GEQ {
+						if loop[lc.Block()] {
+							okAlt = true
+						} else {
+							bad = "the 'filter is full' test uses a length taken before the loop: once full, every entry is evicted"
 						}
 					}
 				}
+				// ttl <= 0
+				if isFieldLoad(b.X, tRF, "ttl") {
+					if k, ok := intConst(b.Y); ok && k == 0 && op == token.LEQ {
+						okAlt = true
+					}
+				}
+				// deltaT >= ttl
+				if isFieldLoad(b.Y, tRF, "ttl") && op == token.GEQ {
+					if sc, _ := callOf(unspill(b.X)); sc != nil && p.CalleeID(sc.Common()) == "(time.Time).Sub" {
+						a := sc.Common().Args
+						if unspill(a[0]) == ssa.Value(cf.Params[1]) {
+							if fk, _, ok := fieldLoad(unspill(a[1])); ok && fk.Field == "firstSeen" {
+								okAlt = true
+							}
+						}
+					}
+				}
+			}
+			if !okAlt {
+				okEdge = false
 			}
 		}
 		if !okEdge && bad == "" {
@@ -511,4 +599,10 @@ func c11Eviction(c *Ctx, p *Prog) {
 	} else {
 		ob.HoldNT("purge guarded by Len()>=102400 (in loop) | ttl<=0 | age>=ttl; reset on negative age")
 	}
+}
+
+// isFreshLocal: v is an object allocated in the calling function (new/&T{}).
+func isFreshLocal(v ssa.Value) bool {
+	a, ok := unspill(v).(*ssa.Alloc)
+	return ok && a.Heap || ok
 }
